@@ -100,7 +100,7 @@ namespace _fmt_basics {
 	void print_digits(S &sink, T number, bool negative, int radix,
 			int width, int precision, char padding, bool left_justify,
 			bool group_thousands, bool always_sign, bool plus_becomes_space,
-			bool use_capitals, locale_options locale_opts) {
+			bool use_capitals, locale_options locale_opts, const char *prefix = "") {
 		const char *digits = use_capitals ? "0123456789ABCDEF" : "0123456789abcdef";
 		char buffer[64];
 
@@ -137,12 +137,15 @@ namespace _fmt_basics {
 		};
 
 		// print the number in reverse order and determine #digits.
-		do {
-			FRG_ASSERT(k < 64); // TODO: variable number of digits
-			buffer[k++] = digits[number % radix];
-			number /= radix;
-			step_grouping();
-		} while(number);
+		// Zero printed with an explicit precision of zero has no digits at all.
+		if(number || precision) {
+			do {
+				FRG_ASSERT(k < 64); // TODO: variable number of digits
+				buffer[k++] = digits[number % radix];
+				number /= radix;
+				step_grouping();
+			} while(number);
+		}
 
 		if (k < precision)
 			for (int i = 0; i < precision - k; i++)
@@ -151,9 +154,15 @@ namespace _fmt_basics {
 		if (!c)
 			c = locale_opts.grouping[g];
 
+		// The sign and the prefix are part of the field: they count towards the width,
+		// space padding goes in front of them, zero padding between them and the digits.
 		int final_width = max(k, precision) + extra;
+		if(negative || always_sign || plus_becomes_space)
+			final_width++;
+		for(const char *p = prefix; *p; p++)
+			final_width++;
 
-		if(!left_justify && final_width < width)
+		if(!left_justify && padding == ' ' && final_width < width)
 			for(int i = 0; i < width - final_width; i++)
 				sink.append(padding);
 
@@ -163,6 +172,12 @@ namespace _fmt_basics {
 			sink.append('+');
 		else if(plus_becomes_space)
 			sink.append(' ');
+
+		sink.append(prefix);
+
+		if(!left_justify && padding != ' ' && final_width < width)
+			for(int i = 0; i < width - final_width; i++)
+				sink.append(padding);
 
 		if(k < precision) {
 			for(int i = 0; i < precision - k; i++) {
@@ -176,9 +191,10 @@ namespace _fmt_basics {
 			emit_grouping();
 		}
 
+		// A left-justified field is always padded with spaces.
 		if(left_justify && final_width < width)
 			for(int i = final_width; i < width; i++)
-				sink.append(padding);
+				sink.append(' ');
 	}
 
 	// Signed integer formatting. We cannot print -x as that might not fit into the signed type.
@@ -189,16 +205,16 @@ namespace _fmt_basics {
 			int precision = 1, char padding = ' ', bool left_justify = false,
 			bool group_thousands = false, bool always_sign = false,
 			bool plus_becomes_space = false, bool use_capitals = false,
-			locale_options locale_opts = {}) {
+			locale_options locale_opts = {}, const char *prefix = "") {
 		if(number < 0) {
 			auto absv = ~static_cast<typename std::make_unsigned_t<T>>(number) + 1;
 			print_digits(sink, absv, true, radix, width, precision, padding,
 					left_justify, group_thousands, always_sign, plus_becomes_space, use_capitals,
-					locale_opts);
+					locale_opts, prefix);
 		}else{
 			print_digits(sink, number, false, radix, width, precision, padding,
 					left_justify, group_thousands, always_sign, plus_becomes_space, use_capitals,
-					locale_opts);
+					locale_opts, prefix);
 		}
 	}
 
